@@ -334,7 +334,7 @@ fn rendezvous_cmd(a: &Args) {
     let (mut runs, mut stalls, mut skipped) = (0usize, 0usize, 0usize);
     let mut samples = Vec::new();
     let widths: Vec<usize> = (2..=wmax).collect();
-    for &width in &widths {
+    'outer: for &width in &widths {
         for ctxname in contexts {
             let hints = hint_sets.choose(&mut rng).unwrap().clone();
             let extra = *[0usize, 1, 3].choose(&mut rng).unwrap();
@@ -424,6 +424,10 @@ fn rendezvous_cmd(a: &Args) {
                 samples.push(all.get(1).cloned().unwrap_or_default());
             }
             write_events(&mut w, &all);
+            if stalls > 0 {
+                // one reproduced stall decides the check; do not spend 60 s on each further scenario
+                break 'outer;
+            }
         }
     }
     w.flush().unwrap();
